@@ -55,10 +55,10 @@ def run(ck, F):
     ctl = factsmod.controls()
     chits = scans.scan_sink_results(ctl)
     bad_ctl = {h[0] for h in chits if not (h[3] and h[3] <= scans.GOOD_FLOW)}
-    want = {"c15_dropped", "c15_unwrapped", "c15_ok_swallow", "c15_in_closure::{closure#0}"}
+    want = {"c15_dropped", "c15_unwrapped", "c15_ok_swallow", "c15_in_closure::{closure#0}", "c15_fold_discards::{closure#0}"}
     good_ctl = {h[0] for h in chits if h[3] and h[3] <= scans.GOOD_FLOW}
     short_ctl = {h[0] for h in chits if h[2] in scans.SHORT_WRITE}
-    if bad_ctl == want and "c15_propagated" in good_ctl and short_ctl == {"c15_short_write"}:
+    if bad_ctl == want and {"c15_propagated", "c15_try_for_each_ok::{closure#0}"} <= good_ctl and short_ctl == {"c15_short_write"}:
         ck.ok("R1", "positive-control", "engine/controls/src/lib.rs", f"controls: flagged {sorted(bad_ctl)}, short write {sorted(short_ctl)}")
     else:
         ck.undecided("R1", "positive-control", "engine/controls/src/lib.rs",
